@@ -96,10 +96,64 @@ def run(ctx):
 
     # ------------------------------------------------------------------ WRAPPER
     ctx.rule('WRAPPER', 'within each family (read items, read frames, write items, write frames) the four typed wrappers have identical normalised fact sheets (ordered guards, '
-             'error codes, return values, slot called, position / frame-count updates, zero fill sizes); each family reference equals the frozen contract in tables/c09_wrapper_contract.json', floor=16)
+             'error codes, return values, slot called, position / frame-count updates, zero fill sizes); each family reference and the two raw variants contain every required guard (in order) and update of the documented contract (required-fact table in the rule)', floor=16)
     fams = {'read': 'sf_read_%s', 'readf': 'sf_readf_%s', 'write': 'sf_write_%s', 'writef': 'sf_writef_%s'}
-    contract_path = os.path.join(VERIF, 'tables', 'c09_wrapper_contract.json')
-    contract = json.load(open(contract_path)) if os.path.exists(contract_path) else {}
+    # required facts per family, from docs/api.md and DESIGN.md Appendix B.1 (not a frozen copy of the source: only these facts are required,
+    # in this order for guards; anything else may be added freely)
+    RG = {'len0': ('== 0)', None), 'neg': ('<= 0)', 'SFE_NEGATIVE_RW_LEN'), 'nullh': ('(sndfile == 0)', 'SFE_BAD_SNDFILE_PTR'), 'magic': ('->Magick !=', 'SFE_BAD_SNDFILE_PTR'),
+          'rmode': ('(psf->file.mode == SFM_WRITE)', 'SFE_NOT_READMODE'), 'wmode': ('(psf->file.mode == SFM_READ)', 'SFE_NOT_WRITEMODE'),
+          'ralign': ('% psf->sf.channels)', 'SFE_BAD_READ_ALIGN'), 'walign': ('% psf->sf.channels)', 'SFE_BAD_WRITE_ALIGN'),
+          'rawralign': ('% (psf->sf.channels * bytewidth))', 'SFE_BAD_READ_ALIGN'), 'rawwalign': ('% (psf->sf.channels * bytewidth))', 'SFE_BAD_WRITE_ALIGN'),
+          'negraw': ('(bytes < 0)', 'SFE_NEGATIVE_RW_LEN'), 'eof': ('(psf->read_current >= psf->sf.frames)', None), 'rslot': ('(psf->read_T == 0)', 'SFE_UNIMPLEMENTED'), 'wslot': ('(psf->write_T == 0)', 'SFE_UNIMPLEMENTED')}
+    CONTRACT = {
+        'read': (['len0', 'nullh', 'magic', 'neg', 'rmode', 'ralign', 'eof', 'rslot'],
+                 ['(psf->last_op != SFM_READ)', 'psf->seek(psf, SFM_READ, psf->read_current)', '(count = psf->read_T(psf, ptr, len))', '(psf->read_current += (count / psf->sf.channels))',
+                  '(count = ((psf->sf.frames - psf->read_current) * psf->sf.channels))', 'psf_memset((ptr + count), 0, (extra * sizeof(T)))', '(psf->read_current = psf->sf.frames)',
+                  '(psf->last_op = SFM_READ)', '["return", "count"]', 'psf_memset(ptr, 0, (len * sizeof(T)))']),
+        'readf': (['len0', 'nullh', 'magic', 'neg', 'rmode', 'eof', 'rslot'],
+                  ['(psf->last_op != SFM_READ)', 'psf->seek(psf, SFM_READ, psf->read_current)', '(count = psf->read_T(psf, ptr, (frames * psf->sf.channels)))',
+                   '(psf->read_current += (count / psf->sf.channels))', '(psf->read_current = psf->sf.frames)', '(psf->last_op = SFM_READ)', '["return", "(count / psf->sf.channels)"]',
+                   'psf_memset(ptr, 0, ((frames * psf->sf.channels) * sizeof(T)))']),
+        'write': (['len0', 'nullh', 'magic', 'neg', 'wmode', 'walign', 'wslot'],
+                  ['(psf->last_op != SFM_WRITE)', 'psf->seek(psf, SFM_WRITE, psf->write_current)', '(psf->error = psf->write_header(psf, SF_FALSE))', '(psf->have_written = SF_TRUE)',
+                   '(count = psf->write_T(psf, ptr, len))', '(psf->write_current += (count / psf->sf.channels))', '(psf->last_op = SFM_WRITE)', '(psf->write_current > psf->sf.frames)',
+                   '(psf->sf.frames = psf->write_current)', '(psf->dataend = 0)', 'psf->write_header(psf, SF_TRUE)', '["return", "count"]']),
+        'writef': (['len0', 'nullh', 'magic', 'neg', 'wmode', 'wslot'],
+                   ['(psf->last_op != SFM_WRITE)', 'psf->seek(psf, SFM_WRITE, psf->write_current)', '(psf->error = psf->write_header(psf, SF_FALSE))', '(psf->have_written = SF_TRUE)',
+                    '(count = psf->write_T(psf, ptr, (frames * psf->sf.channels)))', '(psf->write_current += (count / psf->sf.channels))', '(psf->last_op = SFM_WRITE)',
+                    '(psf->sf.frames = psf->write_current)', '(psf->dataend = 0)', 'psf->write_header(psf, SF_TRUE)', '["return", "(count / psf->sf.channels)"]']),
+        'read_raw': (['len0', 'nullh', 'magic', 'rmode', 'negraw', 'eof', 'rawralign'],
+                     ['(psf->last_op != SFM_READ)', 'psf->seek(psf, SFM_READ, psf->read_current)', '(count = psf_fread(ptr, 1, bytes, psf))', '(psf->read_current += (count / blockwidth))',
+                      '(psf->read_current = psf->sf.frames)', '(psf->last_op = SFM_READ)', '["return", "count"]']),
+        'write_raw': (['len0', 'nullh', 'magic', 'neg', 'wmode', 'rawwalign'],
+                      ['(psf->last_op != SFM_WRITE)', 'psf->seek(psf, SFM_WRITE, psf->write_current)', '(psf->error = psf->write_header(psf, SF_FALSE))', '(psf->have_written = SF_TRUE)',
+                       '(count = psf_fwrite(ptr, 1, len, psf))', '(psf->write_current += (count / blockwidth))', '(psf->last_op = SFM_WRITE)', '(psf->sf.frames = psf->write_current)',
+                       '(psf->dataend = 0)', 'psf->write_header(psf, SF_TRUE)', '["return", "count"]']),
+    }
+
+    def contract_check(f, sh, fam):
+        req_g, req_t = CONTRACT[fam]
+        g = guards(sh)
+        pos = -1
+        miss = []
+        for name in req_g:
+            sub, err = RG[name]
+            found = None
+            for i2 in range(pos + 1, len(g)):
+                c, st, rv = g[i2]
+                if sub in c and (err is None or any(err in x for x in st)):
+                    found = i2
+                    break
+            if found is None:
+                miss.append('guard %s (%s -> %s) missing or out of order' % (name, sub, err))
+            else:
+                pos = found
+        flat = json.dumps(sh)
+        for t in req_t:
+            if json.dumps(t)[1:-1] not in flat and t not in flat:
+                miss.append('required fact `%s` missing' % t)
+        return miss
+
     for fam, pat in fams.items():
         ref = None
         for T in TYPES:
@@ -107,13 +161,16 @@ def run(ctx):
             sh = sheet(f, T)
             if ref is None:
                 ref = sh
-                d = diff(contract.get(fam), json.loads(json.dumps(sh))) if fam in contract else ('', 'no frozen contract', '')
-                ctx.ob('WRAPPER', '%s:contract' % f.name, d is None, f.loc(f.body), 'matches the frozen contract' if d is None else
-                       'deviates from the frozen contract at %s: contract %s, found %s' % (d[0], json.dumps(d[1])[:160], json.dumps(d[2])[:160]), None)
+                miss = contract_check(f, sh, fam)
+                ctx.ob('WRAPPER', '%s:contract' % f.name, not miss, f.loc(f.body), 'has every required guard (in order) and update of the documented contract' if not miss else '; '.join(miss[:4]), None)
                 continue
             d = diff(ref, sh)
             ctx.ob('WRAPPER', '%s:sibling' % f.name, d is None, f.loc(f.body), 'same fact sheet as %s' % (pat % TYPES[0]) if d is None else
                    'differs from sibling %s at %s: sibling has %s, this has %s' % (pat % TYPES[0], d[0], json.dumps(d[1])[:200], json.dumps(d[2])[:200]), None)
+    for fam, name in (('read_raw', 'sf_read_raw'), ('write_raw', 'sf_write_raw')):
+        f = prog.fn(name, 'sndfile.c')
+        miss = contract_check(f, sheet(f, None), fam)
+        ctx.ob('WRAPPER', '%s:contract' % name, not miss, f.loc(f.body), 'has every required guard (in order) and update of the documented contract' if not miss else '; '.join(miss[:4]), None)
 
     # ------------------------------------------------------------------ ERRTABLE
     ctx.rule('ERRTABLE', 'SndfileErrors[]: every enumerator value in [0, SFE_MAX_ERROR) occurs exactly once, every message is a non-empty string, the {SFE_MAX_ERROR, NULL} terminator is last; '
